@@ -524,3 +524,42 @@ fn only_write_touches_counter() {
 instances! {
     c06_k4_only_write_touches_counter => only_write_touches_counter();
 }
+
+// ---- C05.K8b — the HotReloader methods send the right message ---------------------------------------------------------------
+#[cfg(kani)]
+static mut MSG_KIND: u8 = 0; // 1 AddAsset, 2 Clear, 3 Static, 4 Ptr
+#[cfg(kani)]
+static mut MSG_COUNT: u8 = 0;
+#[cfg(kani)]
+fn msg_send_rec<T>(_this: &Sender<T>, msg: T) -> Result<(), channel::SendError<T>> {
+    unsafe {
+        assert!(std::mem::size_of::<T>() == std::mem::size_of::<CacheMessage>());
+        let m: &CacheMessage = &*(&msg as *const T as *const CacheMessage);
+        MSG_KIND = match m {
+            CacheMessage::AddAsset(_) => 1,
+            CacheMessage::Clear => 2,
+            CacheMessage::Static(_, _) => 3,
+            CacheMessage::Ptr(_, _, _) => 4,
+        };
+        MSG_COUNT += 1;
+    }
+    std::mem::forget(msg);
+    Ok(())
+}
+#[cfg(kani)]
+#[kani::proof]
+#[kani::unwind(6)]
+#[kani::stub(crossbeam_channel::Sender::send, msg_send_rec)]
+#[kani::stub(std::thread::available_parallelism, crate::amv::common::par1)]
+pub(crate) fn c05_k8b_reloader_messages() {
+    let r = make_reloader();
+    r.add_asset("a".into(), Dependencies::empty(), Type::of::<A>());
+    unsafe { assert!(MSG_KIND == 1 && MSG_COUNT == 1, "C05 a registration is sent to the reloader thread as one AddAsset message") };
+    r.clear();
+    unsafe { assert!(MSG_KIND == 2 && MSG_COUNT == 2, "C10 clear tells the reloader thread") };
+    let rs: &'static HotReloader = Box::leak(Box::new(make_reloader()));
+    let map: &'static crate::cache::AssetMap = Box::leak(Box::new(crate::cache::amv_h::new_map()));
+    rs.send_static(map);
+    unsafe { assert!(MSG_KIND == 3 && MSG_COUNT == 3, "C05 enhance_hot_reloading hands the static reference to the reloader thread") };
+    std::mem::forget(r);
+}
